@@ -152,12 +152,25 @@ func VH_C07_OpenRetry() {
 	verifrt.Assume(verifrt.BoolI("sm.refuse", 0)) // first attempt refused -> retry loop
 	gc0 := st.GameCount
 	lv, a, d, sb, bb := verifrt.IntRange("nb.level", -1, 2), verifrt.Int64("nb.ante"), verifrt.Int64("nb.dealer"), verifrt.Int64("nb.sb"), verifrt.Int64("nb.bb")
+	env := verifrt.Cfg("env") // what arrives during the first retry sleep: 0 blind update, 1 close, 2 release
 	verifrt.DuringSleep(1, 3*time.Second, func() {
-		te.UpdateBlind(lv, a, d, sb, bb)
+		switch env {
+		case 0:
+			te.UpdateBlind(lv, a, d, sb, bb)
+		case 1:
+			te.CloseTable()
+		case 2:
+			te.ReleaseTable()
+		}
 	})
 	err := te.tableGameOpen()
 	opened := len(w.bk.calls) > 0
 	bs := te.table.State.BlindState
+	if env != 0 {
+		verifrt.Assert(!opened && te.table.State.GameCount == gc0 && te.table.State.Status != TableStateStatus_TableGamePlaying, "no hand opens after the table was closed or released while the open was being retried")
+		verifrt.Reach("end")
+		return
+	}
 	if opened {
 		verifrt.Reach("opened on retry")
 		verifrt.Assert(err == nil && te.table.State.GameCount == gc0+1, "the retry opens one hand")
